@@ -1002,4 +1002,35 @@ example : (feed (responseSize [71,69,84]) ⟨.head, []⟩
 /-- the machine is not constant: a bad request line is rejected -/
 example : (feed requestSize ⟨.head, []⟩ [71, 13, 10, 13, 10]).2 = [.reject [[71]]] := by decide
 
+/-! ## audit round 6 (cross-audit, added by the C46-48 builder): non-vacuity witnesses — the hypotheses `Inv`, `Expected`,
+    `Causal`, "the client-side reader waits", "the segment does not complete the response" hold on a reachable, non-initial
+    state and a schedule with pipelining and a response cut in two -/
+private def aσ0 : Sys := ⟨⟨.head, []⟩, ⟨.wait, []⟩⟩
+private def aq : Bytes := [71, 32, 47, 32, 72, 84, 84, 80, 47, 49, 46, 49, 13, 10, 13, 10]           -- "G / HTTP/1.1\r\n\r\n"
+private def ar : Bytes := [72, 84, 84, 80, 47, 49, 46, 49, 32, 50, 48, 52, 32, 78, 13, 10, 13, 10]   -- "HTTP/1.1 204 N\r\n\r\n"
+private def aSched : List Ev := [.client aq, .server (ar.take 5), .client aq, .server (ar.drop 5), .server ar]
+/-- the state after the first request has been forwarded: the client-side reader waits, the upstream reader expects a head -/
+private def aσ1 : Sys := (sysStep requestSize (responseSize [71]) aσ0 (.client aq)).1
+
+example : Expected requestSize (responseSize [71]) aσ0 aSched := by
+  simp only [aSched, Expected]; decide +kernel
+example : Causal requestSize (responseSize [71]) aσ0 aSched := by
+  simp only [aSched, Causal]; decide +kernel
+example : aσ1.s.phase = .wait ∧ aσ1.c.phase = .head ∧ Inv aσ1 := by
+  refine ⟨by decide +kernel, by decide +kernel, fun _ => by decide +kernel⟩
+-- answered_in_order on this schedule: request, response, request, response — and the upstream reader is idle again
+example : msgsOf (sysRun requestSize (responseSize [71]) aσ0 aSched).2 = [true, false, true, false] ∧
+    idle (sysRun requestSize (responseSize [71]) aσ0 aSched).1 = true := by decide +kernel
+-- client_early: its hypothesis holds in aσ1 and both orders give two forwarded requests and one relayed response
+example : (sysRun requestSize (responseSize [71]) aσ1 [.server ar, .client aq]).2.length = 2 ∧
+    sysRun requestSize (responseSize [71]) aσ1 [.server ar, .client aq] =
+      sysRun requestSize (responseSize [71]) aσ1 [.client aq, .server ar] := by decide +kernel
+-- server_merge: the first five bytes of the response do not complete it
+example : hasMsg (feed (responseSize [71]) aσ1.c (ar.take 5)).2 = false ∧ ar.take 5 ≠ [] := by decide +kernel
+-- pipelined_in_order / wait_buffers: a second request arrives while the first flow is unfinished, then the flow is released
+example : (release requestSize (feed requestSize ⟨.wait, []⟩ aq).1).2 = [.msg [[71, 32, 47, 32, 72, 84, 84, 80, 47, 49, 46, 49]] []] := by
+  decide +kernel
+-- merged_schedule_normal_form on this schedule: all client bytes first, then the three server segments
+example : clientBytes aSched = aq ++ aq ∧ serverEvs aSched = [.server (ar.take 5), .server (ar.drop 5), .server ar] := by decide +kernel
+
 end MitmVerif.Props.C02
